@@ -179,6 +179,34 @@ def gamma(x):
     return scipy.special.gamma(x)
 
 
+def gammaincc(s, x):
+    """regularised upper incomplete gamma Q(s, x) = Gamma(s, x) / Gamma(s): dQ/dx = -x^(s-1) e^(-x) / Gamma(s)  (x > 0)"""
+    if isinstance(x, Dual):
+        u = x.v
+        xs = S.sym_pow(u, s - 1) if (is_sym(u) or is_sym(s)) else u ** (s - 1)
+        ex = S.sym_exp(-u) if is_sym(u) else math.exp(-u)
+        return Dual(gammaincc(s, u), -xs * ex / gamma(s) * x.d)
+    if is_sym(x) or is_sym(s):
+        return S.generic_uf("gammaincc", s, x)
+    import scipy.special
+
+    return scipy.special.gammaincc(s, x)
+
+
+def gammainc(s, x):
+    """regularised lower incomplete gamma P(s, x) = 1 - Q(s, x)"""
+    if isinstance(x, Dual):
+        u = x.v
+        xs = S.sym_pow(u, s - 1) if (is_sym(u) or is_sym(s)) else u ** (s - 1)
+        ex = S.sym_exp(-u) if is_sym(u) else math.exp(-u)
+        return Dual(gammainc(s, u), xs * ex / gamma(s) * x.d)
+    if is_sym(x) or is_sym(s):
+        return 1 - S.generic_uf("gammaincc", s, x)
+    import scipy.special
+
+    return scipy.special.gammainc(s, x)
+
+
 # --------------------------------------------------------------------------------------
 # truncated Taylor arithmetic (jets) around a point: coefficients c_k = f^(k)(x0)/k!
 
